@@ -154,6 +154,13 @@ int main(void)
 	rt R0 = ((X << W) + z) % M;
 #else
 	/* x*2^W + z = Q*M + R0 with Q < 2^W, R0 < M  <=>  x < M, z < 2^W */
+#if defined(QBITS) && defined(QHIGH)
+	/* bounded claim: quotient within 2^QBITS of its maximum 2^W - 1 (operand close to the modulus: the
+	   "top words equal" branch of the estimate); N = (2^W - 1 - q')*M + R0 written without a wide product */
+	rt Qd = nd_bits(QBITS), R0 = nd_bits(BL);
+	ASSUME(R0 < M);
+	rt N = (M << W) - (Qd + 1) * M + R0;
+#else
 #ifdef QBITS
 	rt Q = nd_bits(QBITS), R0 = nd_bits(BL);	/* bounded claim: quotient below 2^QBITS */
 #else
@@ -161,6 +168,7 @@ int main(void)
 #endif
 	ASSUME(R0 < M);
 	rt N = Q * M + R0;
+#endif
 	uint32_t z = (uint32_t)(N & WMASK);
 	put(x, BL, N >> W);
 #endif
